@@ -1132,6 +1132,9 @@ def life_spec(pid, line, snaps):
     for k, p in enumerate(P):
         if pid == "C07" and p.get("alive") == "0":
             return ("process-died", "the server process died at operation %d" % k)
+        if pid == "C07" and p.get("run") in ("err", "ok") and p.get("stops", "0/0").endswith("/0") and "addr=" not in line.split(" ")[2]:
+            return ("run-returned", "Run returned (%s) at operation %d although Stop was never called: the server no longer accepts connections%s" % (
+                p.get("run"), k, " (after a failed accept: descriptor exhaustion)" if "accepterr" in ops_text else ""))
         if pid == "C17":
             if p.get("ready") == "1" and p.get("run") in ("err", "none"):
                 return ("ready-without-listener", "Ready() is true although Run %s" % ("returned an error" if p.get("run") == "err" else "was not called"))
@@ -1287,7 +1290,7 @@ def make_life_check(pid, gens):
         res.rule = LIFE_RULES[pid] + "; every scenario is predicted by the LTS (Sys.v, canonical scheduler to quiescence) and forced on a real server in a worker process; after each operation the observed snapshot (ready, Run/Stop returns, port, per connection: id, handlers started/ended, closed, OnClose count) must become and stay the predicted one; one evaluation = one scenario"
     CHECKS[pid] = fn
 
-for _pid, _g in [("C06", ["c06"]), ("C07", ["c07"]), ("C08", ["c08"]), ("C09", ["c09"]), ("C10", ["c10"]), ("C11", ["c11"]), ("C12", ["c12"]), ("C13", ["c13"])]:
+for _pid, _g in [("C06", ["c06"]), ("C07", ["c07", "c07accept"]), ("C08", ["c08"]), ("C09", ["c09"]), ("C10", ["c10"]), ("C11", ["c11"]), ("C12", ["c12"]), ("C13", ["c13"])]:
     make_life_check(_pid, _g)
 
 
